@@ -326,9 +326,9 @@ def lookupSeries (p : PipeSpec) (t : Lookup.Table) (rows : List Row) (idx : List
   match t.call 0 0 (idx.map (reqOf p rows)) with
   | .error e => .error (lookErr e)
   | .ok res =>
-    match res.mapM (fun (e : Nat × Lookup.Cells) => e.2.map fun c => (e.1, ((c.getD 0 0 : Int) : Rat) / (p.den : Nat))) with
-    | some ser => .ok ser
-    | none => .error .internal
+    if res.all (fun e => e.2.isSome) then
+      .ok (res.map fun e => (e.1, ((((e.2.getD []).getD 0 0 : Int) : Rat) / (p.den : Nat))))
+    else .error .internal
 
 /-- `w[sex] / den` of a modifier for the simulant with label `l` (read through the modifier's own view) -/
 def modW (m : ModSpec) (rows : List Row) (l : Nat) : Rat :=
